@@ -154,7 +154,8 @@ PROPS = {
         "theorems": [
             "BPT.Props.C06.ids_exact", "BPT.Props.C06.free_list_exact", "BPT.Props.C06.allocated_eq_reachable",
             "BPT.Props.C06.reachable_nodes_stored", "BPT.Props.C06.clear_single_leaf", "BPT.Props.C06.alloc_reuses",
-            "BPT.Props.C06.introspection_agrees", "BPT.Props.C06.count_nodes_eq_allocated",
+            "BPT.Props.C06.introspection_agrees", "BPT.Props.C06.count_nodes_eq_allocated", "BPT.Props.C06.slots_le_peak_live",
+            "BPT.Rust.insert_len_le", "BPT.Rust.remove_lens", "BPT.Rust.insertRec_grow", "BPT.Rust.removeRec_lens",
             "BPT.Rust.lenFrom_spec", "BPT.Rust.leafCountFrom_spec", "BPT.Rust.countNodesFrom_spec", "BPT.Rust.leafSizesFrom_spec", "BPT.Rust.leafIdsFrom_spec",
             "BPT.Props.C02.reachable_sinv",
             "BPT.Rust.insertRec_bids", "BPT.Rust.removeRec_bids", "BPT.Rust.collapse_struct", "BPT.Rust.view_arenas",
@@ -165,7 +166,6 @@ PROPS = {
              "quick": {"cases": 100, "len": 300}, "thorough": {"cases": 3000, "len": 400}},
         ],
         "nontrivial": "a case is non-trivial when the tree reached a branch root and at least one removal returned a value; raw arena state (storage length, mask, free-list order) is compared with the model after every mutation; distinct = distinct op-line sequences",
-        "trusted_extra": ["the churn bound (slot total never exceeds the largest number of simultaneously live nodes) is decided by the oracle's ghost maximum on every history and follows informally from `alloc_reuses` + `ids_exact`; it is not yet a Lean theorem over histories"],
     },
     "C10": {
         "title": "Rust checked/bulk API and constructors agree with the basic operations",
